@@ -51,6 +51,11 @@ CLAIMS = {
         "Exploration: 800 (quick) / 15k (thorough) generated expressions over the builtin models incl. zero components, dispersed leaves, oriented and magnetic leaves in 2-D; one defect repaired (zero factor), three listed findings keyed by input class.",
         "Assumes leaves alone are evaluated correctly (C01/C07); leaves costing >5 ms per evaluation are excluded from the pool (recorded).",
         "DESIGN.md section 3 C08"),
+    "C09": (
+        "generated plugin definitions rendered twice (embedded C / Python functions) from one expression AST; oracle = three-way differential: C build vs Python build vs the documented weighted mean evaluated directly from the AST in numpy; ill-formed definition kinds must be refused at load/build",
+        "Exploration: ~1k (quick) / 40k (thorough) generated (definition, request) pairs, one C compile per definition; I, <F^2>, V_shell, ratio and (when modes are declared) R_eff at 1e-10; 13 ill-formed kinds embedded in larger tables; one listed finding (monodisperse invalid region).",
+        "Both renderings come from the harness' AST (a rendering bug would show as a three-way disagreement); empty meshes are left to C01.",
+        "DESIGN.md section 3 C09"),
     "C10": (
         "Hypothesis-generated requests rendered through four calling interfaces; oracle = differential between DirectModel, Iq/Iqxy, the SasView-style object (incl. multiplicity, array distributions, clone) and the bumps wrapper (stub bumps.parameter), an independently computed selection index, and refusal predicates for generated misspelt names",
         "Exploration: all 78 models x 16 (quick) / 320 (thorough) generated (parameters, dispersity in both naming schemes, data object with mask/q-limits/NaN, unknown-name) cases at 1e-12.",
